@@ -244,6 +244,17 @@ def directed_nested_programs(rng):
                     defs.insert(1, {"id": 1, "pos": [extra], "npos_req": 1, "kw": [], "prio": 0})
                 out.append({"spec": [], "defs": defs, "utab": {str(k): v for k, v in utab.items()},
                             "calls": [{"vals": [e]} for e in encs]})
+        # one user condition given two different bounds in the same function (Dependent[int, p] next to Dependent[str, p]),
+        # in either registration order, alone and under a union: the two types are distinct objects with their own bound
+        for order in ((INT, STR), (STR, INT)):
+            for wrap in (False, True):
+                ta, tb = [9, 10, [0, order[0]]], [9, 10, [0, order[1]]]
+                if wrap:
+                    ta = [2, ta, Li]
+                defs = [{"id": 0, "pos": [ta], "npos_req": 1, "kw": [], "prio": 0},
+                        {"id": 1, "pos": [tb], "npos_req": 1, "kw": [], "prio": 0},
+                        {"id": 9, "pos": [[0, 0]], "npos_req": 1, "kw": [], "prio": 0}]
+                out.append({"spec": [], "defs": defs, "utab": {"10": tt([1, 3, "a", "ab"])}, "calls": [{"vals": [e]} for e in encs]})
     return out
 
 
